@@ -204,9 +204,13 @@ def c13(tier, seed):
 
 
 def c16(tier, seed):
+    oc = [c for c in gen.opt_cases(seed + 9, _sizes(tier, 500, 6000)) if "SOI" not in c["grammar"]]
+    for c in oc:
+        c["starts"] = "all"
     r = parse_family("C16", tier, seed, [
-        ("G1", {"n_grammars": _sizes(tier, 500, 8000)}),
-        ("G2", {"n": _sizes(tier, 400, 6000), "stack": True}),
+        ("G1", {"n_grammars": _sizes(tier, 450, 8000)}),
+        ("G2", {"n": _sizes(tier, 350, 6000), "stack": True}),
+        ("X", {"cases": oc}),
     ], ["C16"])
     r.rule = RULE_PARSE + " Judge for SOI-free grammars and every k>0: parse(text, start_pos=k) vs parse(text[k:]) shifted, and with the prefix replaced."
     return r
